@@ -439,6 +439,30 @@ def r_err_clean(F, V):
                     errs_after = [e for e in errs if e in after and not _err_from_call(body, e, i)]
                     if errs_after:
                         bad = (i, "an error return is reachable after the table-mutating call %s" % cp)
+        # (1b) releasing the block or overwriting the whole table of an argument before an error exit
+        for i, t in body.calls():
+            cp = callee_path(t) or ""
+            f = t["f"]
+            dirty = None
+            if cp.endswith("::free_buckets") or cp.endswith("::drop_inner_table") or (f["k"] == "fn" and f.get("method") == "deallocate"):
+                dirty = "releases the table's block (%s)" % cp
+            elif cp in ("core::mem::replace", "core::mem::swap", "core::ptr::write", "core::mem::take") and any(x == "raw::RawTableInner" or x.startswith("raw::RawTable<") for x in f.get("substs", [])):
+                dirty = "overwrites the whole table (%s)" % cp
+            if dirty and t["args"]:
+                r, _ = operand_deep_root(body, t["args"][0])
+                if r is not None and body.is_arg(r):
+                    after = set()
+                    for x in body.nsucc[i]:
+                        after |= body.reachable_from(x)
+                    if any(e in after for e in errs):
+                        bad = (i, "an error return is reachable after the body %s" % dirty)
+        for i, k, s in body.stmts():
+            if s["k"] == "assign" and s["p"].get("proj") and s["p"].get("t") in ("raw::RawTableInner",) and s["p"]["proj"][-1]["k"] == "deref":
+                r, _ = body.root_of_place(s["p"])
+                if body.is_arg(r):
+                    after = body.reachable_from(i)
+                    if any(e in after for e in errs):
+                        bad = (i, "an error return is reachable after the whole table of an argument was overwritten (`*self = ..`)")
         # (2) Err exit after a successful allocation whose owner is not a guard
         for i, t in body.calls():
             cp = callee_path(t)
